@@ -89,7 +89,9 @@ def gen_large(tier, seed):
 
 
 def suites(tier, seed):
-    return [Suite("large-bodies", "machine", lambda: gen_large(tier, seed), monitor=monitor, nontrivial=lambda c, il: True, canon=mg.canon_nondet, candidate_ok=mg.candidate_ok, shards=4, shrink=False,
+    return [Suite("idle-consumer-backlog", "machine", lambda: [mg.backlog_cases(Rng(seed + 31), "consumer", 70000)], monitor=monitor, nontrivial=lambda c, il: True, canon=mg.canon_nondet, shrink=False, compare=(tier != "quick"), timeout=600,
+                  rule="70 000 deliveries pile up unread in one consumer's queue; a delivery and a call on another channel are then served at once, and the idle consumer finally reads all 70 000 in order followed by its terminal message (quick: judged by the monitor only; thorough: also diffed against the Lean model, whose list queues make that quadratic)"),
+            Suite("large-bodies", "machine", lambda: gen_large(tier, seed), monitor=monitor, nontrivial=lambda c, il: True, canon=mg.canon_nondet, candidate_ok=mg.candidate_ok, shards=4, shrink=False,
                   rule="one content (delivery / get answer / return) of 4095, 4096, 4097, 65535, 65536, 131064, 131065, 2^20-1, 2^20, 2^20+1 bytes (thorough: also 2^20+131064, 2^21+3, 3*2^20) cut into frames of 64-128 KiB, followed by a second small delivery: delivered once, intact, and the next message after it too"),
             Suite("sessions", "machine", lambda: gen(tier, seed), monitor=monitor, nontrivial=nontrivial, canon=mg.canon_nondet, candidate_ok=mg.candidate_ok,
                   rule="random sessions: 2-6 channels x consumers; deliveries, gets and returns with bodies 0..300 B cut into body frames by every partition style (one / two / single bytes / random / with empty frames), other channels' frames and heartbeats interleaved inside a content, frames fed directly or through the stream with random read cuts and would-block points; queues drained at the end")]
